@@ -24,7 +24,7 @@ COMMON_TB = [
 PROPS = {
     "C05": {
         "lean_modules": ["Tulz.Props.C05"],
-        "theorems": ["Tulz.C05_notify_log", "Tulz.C05_notify_state", "Tulz.C05_never_again", "Tulz.C05_handle_reports",
+        "theorems": ["Tulz.C05_notify_log", "Tulz.C05_never_again", "Tulz.C05_dead_cases", "Tulz.C05_handle_reports",
                      "Tulz.C05_reject_stale", "Tulz.C05_unsubscribe_ok"],
         "trusted_base": COMMON_TB,
         "assumptions": ["valid histories: mute/unmute/isMuted/getObserver() only on handles for which isValid() is true; handle.unsubscribe() only on handles "
@@ -34,8 +34,8 @@ PROPS = {
     },
     "C10": {
         "lean_modules": ["Tulz.Props.C10"],
-        "theorems": ["Tulz.C10_memory_safe", "Tulz.C10_memory_safe_history", "Tulz.C10_round_semantics", "Tulz.C10_new_not_in_round",
-                     "Tulz.C10_wf_preserved", "Tulz.C10_wf_history"],
+        "theorems": ["Tulz.C10_memory_safe", "Tulz.C10_memory_safe_history", "Tulz.C10_round_semantics", "Tulz.C10_notify_is_round",
+                     "Tulz.C10_new_not_in_round", "Tulz.C10_wf_preserved", "Tulz.C10_wf_nested", "Tulz.C10_wf_history"],
         "trusted_base": COMMON_TB,
         "assumptions": ["callback actions that go through a handle are guarded the way a careful client guards them (subject.isSubscriptionValid(h) before "
                         "mute/unmute/getObserver(); std::invalid_argument of unsubscribe is caught inside the callback)",
@@ -43,7 +43,7 @@ PROPS = {
     },
     "C16": {
         "lean_modules": ["Tulz.Props.C16"],
-        "theorems": ["Tulz.C16_assign", "Tulz.C16_apply", "Tulz.C16_opAssign", "Tulz.C16_incdec", "Tulz.C16_recorder"],
+        "theorems": ["Tulz.C16_assign", "Tulz.C16_apply", "Tulz.C16_opAssign", "Tulz.C16_incdec", "Tulz.C16_recorder", "Tulz.C16_reachable"],
         "trusted_base": COMMON_TB + ["arithmetic of the value type is a parameter of the theorems; the correspondence uses long (no overflow, no division by zero), "
                                      "binary64 on dyadic rationals where every result is exact, std::string"],
         "assumptions": ["subscribers are plain recorders (script = []), none muted or invalidated", "signed overflow / division by zero (UB in C++) are never generated"],
@@ -997,14 +997,14 @@ def tie_subject(prop, tier, seed, res):
     cases = [c for c in lib.load_corpus("subject") if c and c[0].startswith("subj ")]
     ncorpus = len(cases)
     if prop == "C05":
-        n = 2500 if tier == "quick" else 40000
+        n = 6000 if tier == "quick" else 60000
         for i in range(n):
             cases.append(gen_c05_case(rng, i % NSIG, 40 if tier == "quick" else 70))
     else:
         cases += gen_c10_exhaustive(tier)
         nex = len(cases) - ncorpus
         res.extra["exhaustive_small_scope_cases"] = nex
-        n = 1500 if tier == "quick" else 40000
+        n = 4000 if tier == "quick" else 40000
         for i in range(n):
             cases.append(gen_c10_random(rng, i % NSIG, 5, 4))
     exp = [subj_expected(c) for c in cases]
@@ -1057,7 +1057,7 @@ def tie_obsv(prop, tier, seed, res):
         return res
     cases = [c for c in lib.load_corpus("subject") if c and c[0].startswith("obsv ")]
     ncorpus = len(cases)
-    n = 6000 if tier == "quick" else 90000
+    n = 20000 if tier == "quick" else 150000
     kinds = ["long", "dy", "str"]
     for i in range(n):
         cases.append(gen_c16_case(rng, kinds[i % 3], 30 if tier == "quick" else 60))
